@@ -139,6 +139,10 @@ MODEL_LEVEL.update({
            'satisfies the C18 clauses; the driver runs the Float instance of the same definitions.',
     'C20': 'Props/C20Model: on every well-formed store (empty graph of every kind included) the models of betweenness, closeness, strong components, Louvain, single_source and modularity never panic.',
 })
+MODEL_LEVEL['C07'] = ('Props/C07Model: each of betweenness, closeness, all_pairs, multi_source, involving of the model is proved to be fold(items.map f) with f the rayon work item and '
+                      'fold the sequential post-processing, so the schedule-independence theorem applies to the algorithm models themselves.')
+MODEL_LEVEL['C11'] += (' Props/C11Weighted: weighted model and weighted definition are generic over a scalar record; over the reals the model equals the definition (undirected and directed), '
+                       'values in [0,1]; the driver runs the Float instance of the same code.')
 MODEL_LEVEL['C09'] += ' Props/C09Rest: sizes, density, degree centrality and the adjacency-matrix triplets of the model equal the abstract values.'
 for _k, _v in MODEL_LEVEL.items():
     TEXT[_k]['level'] = TEXT[_k]['level'] + ' ' + _v
